@@ -1169,6 +1169,14 @@ impl<'de> de::Deserializer<'de> for &mut Deserializer<'de> {
                         // Advance by bytes actually consumed, not total_bytes, so
                         // the cursor is correct if the visitor short-circuits.
                         self.input.set_position((pos + access.offset) as u64);
+                        // A visitor of fixed arity (`[T; N]`) stops after N elements;
+                        // the rest of the vector must not be taken for what follows it.
+                        if result.is_ok() && access.remaining != 0 {
+                            return Err(Error::msg(format!(
+                                "vector has {} more elements than the expected type takes",
+                                access.remaining
+                            )));
+                        }
                         return result;
                     }
 
@@ -1198,7 +1206,7 @@ impl<'de> de::Deserializer<'de> for &mut Deserializer<'de> {
                     self.expect_type = expect.clone();
                     self.wire_type = wire.clone();
                 }
-                let result = visitor.visit_seq(Compound::new(
+                let mut compound = Compound::new(
                     self,
                     Style::Vector {
                         len,
@@ -1206,8 +1214,17 @@ impl<'de> de::Deserializer<'de> for &mut Deserializer<'de> {
                         wire,
                         exact_primitive,
                     },
-                ));
-                result
+                );
+                let result = visitor.visit_seq(&mut compound)?;
+                // see the primitive fast path above
+                if let Style::Vector { len, .. } = compound.style {
+                    if len != 0 {
+                        return Err(Error::msg(format!(
+                            "vector has {len} more elements than the expected type takes"
+                        )));
+                    }
+                }
+                Ok(result)
             }
             (TypeInner::Record(_), TypeInner::Record(_)) => {
                 let expect = self.expect_type.clone();
